@@ -832,6 +832,44 @@ fn build(l: &mut Live, act: &Value, certs: &Certs, rng: &mut Rng) -> Result<Buil
     }
 }
 
+/// Flip classes name the size of the genuine record they flip (`bits`); make sure a genuine
+/// ApplicationData record of exactly that size has been captured on the path peer -> target.
+async fn ensure_base(l: &mut Live, act: &Value) -> Result<(), String> {
+    if act["cls"] != "e1-flip" {
+        return Ok(());
+    }
+    let bits = act["bits"].as_u64().unwrap_or(0) as usize;
+    let ct = act["ct"].as_str().unwrap();
+    if ct != "AppData" {
+        return Ok(()); // Finished / forged bases have a fixed size; build() checks the position
+    }
+    if l.base.get(&CT_APP).map(|b| b.len() * 8) == Some(bits) {
+        return Ok(());
+    }
+    if bits % 8 != 0 || bits / 8 < 37 + 1 {
+        return Err(format!("bad bits {bits}"));
+    }
+    let n = bits / 8 - 37;
+    let mut msg = b"GENUINE!".to_vec();
+    msg.resize(n.max(1), 0x47);
+    msg.truncate(n);
+    let msg = Bytes::from(msg);
+    l.peer().dtls.send(msg.clone()).await.map_err(|e| format!("peer send: {e}"))?;
+    let got = tokio::time::timeout(SETUP_LIMIT, l.target().app_rx.recv()).await.map_err(|_| "genuine base message not delivered")?;
+    if got.as_deref() != Some(&msg[..]) {
+        return Err("genuine base message garbled".into());
+    }
+    let peer_addr = l.peer().addr;
+    let found = l.tgt().tap.cap.lock().iter().rev().find(|c| c.from == peer_addr && c.data.len() * 8 == bits && c.data[0] == CT_APP).map(|c| c.data.clone());
+    match found {
+        Some(b) => {
+            l.base.insert(CT_APP, b);
+            Ok(())
+        }
+        None => Err("genuine base record not captured".into()),
+    }
+}
+
 // ------------------------------------------------------------------------------------------------ inject + settle
 
 struct Settled {
@@ -845,13 +883,21 @@ const SETTLE_LIMIT: Duration = Duration::from_secs(30);
 
 async fn inject(l: &mut Live, datagram: &[u8], src: &str) -> Result<(), String> {
     let to = l.tgt().addr;
-    l.tgt().tap.bypass.lock().push(Bytes::copy_from_slice(datagram));
+    let tap = l.tgt().tap.clone();
+    tap.bypass.lock().push(Bytes::copy_from_slice(datagram));
     let r = match src {
         "peer" => l.peer().sock.send_to(datagram, to).await,
         "stranger" => l.stranger.send_to(datagram, to).await,
         x => panic!("src {x}"),
     };
-    r.map(|_| ()).map_err(|e| format!("inject send: {e}"))
+    r.map_err(|e| format!("inject send: {e}"))?;
+    // the read loop has taken the datagram (it removes it from the bypass list when it does); only then
+    // may a release command overtake nothing
+    let want = Bytes::copy_from_slice(datagram);
+    if !wait_until(&[&tap], SETTLE_LIMIT, || !tap.bypass.lock().iter().any(|x| x == &want)).await {
+        return Err("injected datagram never reached the target socket".into());
+    }
+    Ok(())
 }
 
 /// Wait until everything injected so far has been processed by the target and report what it did.
@@ -986,12 +1032,23 @@ async fn run_inject(edges_path: &str, out_path: &str) {
                 let l = live.as_mut().unwrap();
                 l.uses += 1;
                 let pre_state = l.tgt().state();
-                let built = match build(l, act, &certs, &mut rng) {
-                    Ok(b) => b,
-                    Err(err) => break json!({"type": "tool", "edge": i, "error": format!("cannot build {}: {}", act, err)}),
+                let is_release = act["cls"] == "e1-auth" && act["ct"] == "Handshake" && phase == Phase::KeysPending;
+                if let Err(err) = ensure_base(l, act).await {
+                    live = None;
+                    if attempt < 3 {
+                        continue;
+                    }
+                    break json!({"type": "tool", "edge": i, "error": err});
+                }
+                let built = if is_release {
+                    Built { datagram: Vec::new(), authentic_app: None, note: "the genuine held final flight is released".into() }
+                } else {
+                    match build(l, act, &certs, &mut rng) {
+                        Ok(b) => b,
+                        Err(err) => break json!({"type": "tool", "edge": i, "error": format!("cannot build {}: {}", act, err)}),
+                    }
                 };
                 let src = act["src"].as_str().unwrap();
-                let is_release = act["cls"] == "e1-auth" && act["ct"] == "Handshake" && phase == Phase::KeysPending;
                 let res: Result<Settled, String> = async {
                     if is_release {
                         // the authentic handshake record of this phase is the genuine held flight
@@ -1226,12 +1283,27 @@ async fn run_egress(scen_path: &str, out_path: &str, trace_path: &str) {
         // ---- analyse every datagram the sender emitted in this session
         let caps: Vec<Bytes> = rx_tap.cap.lock().iter().filter(|c| c.from == sender_addr).map(|c| c.data.clone()).collect();
         let mut seen_bytes: HashSet<Bytes> = HashSet::new();
-        trace.push(&json!({"ev": "reset", "scenario": si, "limit": limit}));
-        let mut n_here = 0u64;
-        let mut msgs: HashMap<(usize, usize), usize> = HashMap::new();
+        trace.push(&json!({"ev": "reset", "scenario": si, "limit": limit, "lossy": !all}));
+        struct R {
+            ct: u8,
+            epoch: u16,
+            seq: u64,
+            nonce: String,
+            enc: bool,
+            clear: bool,
+            dup: bool,
+            pt: Option<Vec<u8>>,
+            task: i64,
+            msg: i64,
+            off: i64,
+            intact: bool,
+        }
+        let mut recs: Vec<R> = Vec::new();
+        let mut junk = 0u64;
         for d in &caps {
             for r in split_records(d) {
                 if r.len() < 13 {
+                    junk += 1;
                     trace.push(&json!({"ev": "junk", "len": r.len()}));
                     continue;
                 }
@@ -1240,47 +1312,91 @@ async fn run_egress(scen_path: &str, out_path: &str, trace_path: &str) {
                 if epoch == 0 && ct != CT_APP {
                     continue; // plaintext handshake records before the keys exist
                 }
-                let rb = Bytes::copy_from_slice(r);
-                let dup = !seen_bytes.insert(rb.clone());
+                let dup = !seen_bytes.insert(Bytes::copy_from_slice(r));
                 let pt = open(&wkey, &wiv, r);
-                let enc = pt.is_some();
-                let nonce = if r.len() >= 21 { hex(&r[13..21]) } else { String::new() };
-                let (mut task, mut msg, mut off, mut ptlen, mut clear, mut ok_pattern) = (-1i64, -1i64, -1i64, -1i64, false, true);
+                let mut clear = false;
                 if let Some(pt) = &pt {
-                    ptlen = pt.len() as i64;
-                    if ct == CT_APP && pt.len() >= 8 && pt[0] == 0xA5 {
-                        task = pt[1] as i64;
-                        msg = ((pt[2] as i64) << 8) | pt[3] as i64;
-                        off = u32::from_be_bytes([pt[4], pt[5], pt[6], pt[7]]) as i64 * 8;
-                    }
                     // the plaintext must not be visible in the datagram
                     if pt.len() >= 8 {
                         let w = &pt[..pt.len().min(16)];
                         clear = r.windows(w.len()).any(|x| x == w);
                     }
-                    if task >= 0 {
-                        let n = plan.get(task as usize).and_then(|v| v.get(msg as usize)).copied().unwrap_or(0);
-                        let want = payload_for(task as usize, msg as usize, n);
-                        let o = off as usize;
-                        ok_pattern = o + pt.len() <= n && want[o..o + pt.len()] == pt[..];
-                        if !dup {
-                            *msgs.entry((task as usize, msg as usize)).or_insert(0) += pt.len();
-                        }
-                    }
                 } else if ct == CT_APP {
-                    // not decryptable: is it application plaintext sent in the clear?
-                    clear = r.len() > 13 && r[13..].windows(4).any(|x| x[0] == 0xA5 && x[1] < 16 && x[2] == 0);
+                    // not decryptable: does it carry the application pattern in the clear?
+                    clear = r.len() > 13 + 8 && r[13..].windows(8).any(|x| x[0] == 0xA5 && (x[1] as usize) < plan.len() && x[4] == 0 && x[5] == 0);
                 }
-                n_here += 1;
-                trace.push(&json!({"ev": "rec", "ct": ct, "epoch": epoch, "seq": rec_seq(r) as i64, "nonce": nonce, "enc": enc,
-                    "ptlen": ptlen, "clear": clear, "dup": dup, "task": task, "msg": msg, "off": off, "intact": ok_pattern}));
+                recs.push(R {
+                    ct,
+                    epoch,
+                    seq: rec_seq(r),
+                    nonce: if r.len() >= 21 { hex(&r[13..21]) } else { String::new() },
+                    enc: pt.is_some(),
+                    clear,
+                    dup,
+                    pt,
+                    task: -1,
+                    msg: -1,
+                    off: -1,
+                    intact: true,
+                });
             }
         }
+        // attribute ApplicationData plaintexts to submitted payloads: chunks of >= 8 bytes name themselves,
+        // shorter tails are matched to a payload that lacks exactly that many bytes
+        let mut covered: HashMap<(usize, usize), usize> = HashMap::new();
+        for r in recs.iter_mut() {
+            let Some(pt) = &r.pt else { continue };
+            if r.ct == CT_APP && pt.len() >= 8 && pt[0] == 0xA5 && (pt[1] as usize) < plan.len() {
+                let (t, m) = (pt[1] as usize, ((pt[2] as usize) << 8) | pt[3] as usize);
+                let o = u32::from_be_bytes([pt[4], pt[5], pt[6], pt[7]]) as usize * 8;
+                r.task = t as i64;
+                r.msg = m as i64;
+                r.off = o as i64;
+                let n = plan[t].get(m).copied().unwrap_or(0);
+                let want = payload_for(t, m, n);
+                r.intact = o + pt.len() <= n && want[o..o + pt.len()] == pt[..];
+                if !r.dup {
+                    *covered.entry((t, m)).or_insert(0) += pt.len();
+                }
+            }
+        }
+        for r in recs.iter_mut() {
+            let Some(pt) = &r.pt else { continue };
+            if r.ct == CT_APP && r.task < 0 && !pt.is_empty() && pt.len() < 8 && pt[0] == 0xA5 && !r.dup {
+                let mut hit = None;
+                'f: for (t, list) in plan.iter().enumerate() {
+                    for (m, n) in list.iter().enumerate() {
+                        let c = covered.get(&(t, m)).copied().unwrap_or(0);
+                        if *n >= c && *n - c == pt.len() && (*n <= 8 || c > 0 || *n == pt.len()) {
+                            let want = payload_for(t, m, *n);
+                            if want[c..] == pt[..] {
+                                hit = Some((t, m, c));
+                                break 'f;
+                            }
+                        }
+                    }
+                }
+                if let Some((t, m, c)) = hit {
+                    r.task = t as i64;
+                    r.msg = m as i64;
+                    r.off = c as i64;
+                    *covered.entry((t, m)).or_insert(0) += pt.len();
+                }
+            }
+        }
+        let mut n_here = 0u64;
+        for r in &recs {
+            n_here += 1;
+            trace.push(&json!({"ev": "rec", "ct": r.ct, "epoch": r.epoch, "seq": r.seq as i64, "nonce": r.nonce, "enc": r.enc,
+                "ptlen": r.pt.as_ref().map(|p| p.len() as i64).unwrap_or(-1), "clear": r.clear, "dup": r.dup,
+                "task": r.task, "msg": r.msg, "off": r.off, "intact": r.intact}));
+        }
+        let _ = junk;
         // every submitted payload must have gone out completely (when nothing was lost on loopback)
         let mut incomplete = 0u64;
         for (ti, list) in plan.iter().enumerate() {
             for (mi, n) in list.iter().enumerate() {
-                let got = msgs.get(&(ti, mi)).copied().unwrap_or(0);
+                let got = covered.get(&(ti, mi)).copied().unwrap_or(0);
                 trace.push(&json!({"ev": "msg", "task": ti, "msg": mi, "n": n, "covered": got, "complete": got == *n}));
                 if got != *n {
                     incomplete += 1;
@@ -1354,7 +1470,7 @@ async fn run_early(certs: &Certs, si: usize, sc: &Value, out: &mut NdjsonOut, tr
         wait_until(&tr, Duration::from_secs(5), || rt.cap.lock().iter().filter(|c| c.from == sa && c.data[0] == CT_APP).count() as u64 >= base).await;
         let Some(keys) = pair.c.keys().or_else(|| pair.s.keys()) else { continue };
         let (wkey, wiv) = if sender_is_client { (keys.client_write_key.clone(), keys.client_write_iv.clone()) } else { (keys.server_write_key.clone(), keys.server_write_iv.clone()) };
-        trace.push(&json!({"ev": "reset", "scenario": si, "rep": rep, "limit": MAX_APP_DATA_RECORD_SIZE}));
+        trace.push(&json!({"ev": "reset", "scenario": si, "rep": rep, "limit": MAX_APP_DATA_RECORD_SIZE, "lossy": false}));
         let caps: Vec<Bytes> = rt.cap.lock().iter().filter(|c| c.from == sa).map(|c| c.data.clone()).collect();
         let mut seen: HashSet<Bytes> = HashSet::new();
         for d in &caps {
